@@ -21,6 +21,7 @@ fn dispatch(cmd: &str, args: &[&str]) -> String {
         "body" => vcd::run_body(args),
         "fstw" => fstw::run(args),
         "hier" => hier::run(args),
+        "vhdr" => hier::run_vhdr(args),
         "detect" => detect::run(args),
         "slice" => slice::run(args),
         "ghwslices" => slice::run_ghw(args),
